@@ -159,6 +159,7 @@ func sharedState(p *Loaded, entries []string) []*Obligation {
 	type hit struct{ fns map[string]bool }
 	writes := map[string]*hit{}
 	reads := map[string]*hit{}
+	escapes := map[string]*hit{}
 	base := func(v ssa.Value) *ssa.Global {
 		for {
 			switch t := v.(type) {
@@ -197,6 +198,21 @@ func sharedState(p *Loaded, entries []string) []*Obligation {
 					if g := base(i.X); g != nil && p.mutableGlobals[g] {
 						note(reads, g, f)
 					}
+				case *ssa.FieldAddr, *ssa.IndexAddr, *ssa.DebugRef:
+				default:
+					// the address of a package-level variable handed to a call (a method of a shared
+					// object such as sync.Map, a cache, a pool) or stored away: it may be written there
+					for _, op := range ins.Operands(nil) {
+						if op == nil || *op == nil {
+							continue
+						}
+						if g := base(*op); g != nil {
+							if _, isSlice := ins.(*ssa.Slice); isSlice && !p.mutableGlobals[g] {
+								continue // read-only view of a constant table
+							}
+							note(escapes, g, f)
+						}
+					}
 				}
 			}
 		}
@@ -227,6 +243,17 @@ func sharedState(p *Loaded, entries []string) []*Obligation {
 		}
 		sort.Strings(fs)
 		out = append(out, kObl(fn, "no-read-of-mutable."+k, false, "read by "+strings.Join(fs, ", ")))
+	}
+	for _, k := range keys(escapes) {
+		if writes[k] != nil {
+			continue
+		}
+		var fs []string
+		for f := range escapes[k].fns {
+			fs = append(fs, f)
+		}
+		sort.Strings(fs)
+		out = append(out, kObl(fn, "no-shared-object."+k, false, "address handed on by "+strings.Join(fs, ", ")))
 	}
 	out = append(out, kObl(fn, fmt.Sprintf("reachable-functions-scanned"), len(reach) > 0, fmt.Sprintf("%d functions", len(reach))))
 	sharedStateCount = len(reach)
